@@ -5,6 +5,7 @@ import (
 	"encoding/base64"
 
 	p2pcrypto "github.com/libp2p/go-libp2p/core/crypto"
+	"golang.org/x/crypto/curve25519"
 	"golang.org/x/crypto/nacl/box"
 
 	"berty.tech/weshnet/v2/pkg/cryptoutil"
@@ -18,6 +19,10 @@ var (
 	nonceRequesterAuthenticate = [cryptoutil.NonceSize]byte{1}
 	nonceResponderAccept       = [cryptoutil.NonceSize]byte{2}
 )
+
+// lowOrderProbeScalar is an arbitrary scalar: X25519 fails for every scalar when
+// the point has low order
+var lowOrderProbeScalar = [cryptoutil.KeySize]byte{1}
 
 // Common struct and methods
 type handshakeContext struct {
@@ -91,6 +96,13 @@ func (hc *handshakeContext) receivePeerEphemeralPubKey() error {
 	hc.peerEphemeral, err = cryptoutil.KeySliceToArray(hello.EphemeralPubKey)
 	if err != nil {
 		return errcode.ErrCode_ErrSerialization.Wrap(err)
+	}
+
+	// Refuse low-order points: with such a key the shared ephemeral secret is
+	// the same constant whatever our own ephemeral key is, so account
+	// signatures over it could be replayed from one session to another.
+	if _, err := curve25519.X25519(lowOrderProbeScalar[:], hc.peerEphemeral[:]); err != nil {
+		return errcode.ErrCode_ErrInvalidInput.Wrap(err)
 	}
 
 	return nil
